@@ -114,7 +114,8 @@ def write_evidence(ctx: Ctx, nviol: int, known: int) -> None:
         "repo": REPO,
     }
     validate_evidence(ev)
-    d = os.path.join(VERIF, "evidence")
+    # runs against a scratch tree (mutant worktrees) must not overwrite the committed evidence
+    d = os.path.join(VERIF, "evidence" if os.path.realpath(REPO) == "/repo" else ".scratch_evidence")
     os.makedirs(d, exist_ok=True)
     tmp = os.path.join(d, f".{ctx.pid}.json.tmp")
     with open(tmp, "w") as f:
@@ -172,7 +173,7 @@ def main(argv=None) -> int:
                 raise HarnessError(f"replay of {key} crashed: {e!r}") from e
             if not again or key not in {k for k, _ in again}:
                 raise HarnessError(f"violation {key} did not reproduce on replay: {what} / {again}")
-            d = os.path.join(VERIF, "replays", pid)
+            d = os.path.join(VERIF, "replays" if os.path.realpath(REPO) == "/repo" else ".scratch_replays", pid)
             os.makedirs(d, exist_ok=True)
             h = hashlib.sha1(key.encode()).hexdigest()[:12]
             path = os.path.join(d, f"{h}.json")
